@@ -44,6 +44,48 @@ check("C13",
       "fuse_slice, more blocks than the bound, sizes >= 2**53 in new_blockdim's float ceil.",
       "DESIGN.md 6 C13")
 
+check("C12",
+      "Solver-decided for basic indices (ints, slices of every None-pattern and sign, None, Ellipsis) on 1-D and 2-D inputs "
+      "with symbolic chunk sizes and unbounded symbolic bounds: the real pipeline normalize_index -> slice_array -> "
+      "slice_slices_and_integers -> SliceSlicesIntegers.chunks/_layer is executed symbolically on a fake input node and the "
+      "emitted key grid, per-block getitem slices and block order are compared block-locally with the NumPy meaning of the "
+      "index (reference view model); IndexError iff NumPy raises. Block counts (<=3 quick, <=4 thorough), steps and index "
+      "kinds are enumerated.",
+      "Trusted: z3, symx shims (witness-replayed each run), the slice/view reference model. Outside (not decided): integer "
+      "lists/arrays, boolean masks, dask-array indices, vindex, .blocks, unknown chunk sizes -- their planners are NumPy "
+      "code on data-dependent indices.",
+      "DESIGN.md 6 C12")
+
+check("C14",
+      "Solver-decided index arithmetic of rechunking for all chunk sizes (unbounded integers) within block-count bounds: "
+      "the crosswalk (cumdims_label/_breakpoints/_intersect_1d/old_to_new/intersect_chunks) covers every new block exactly "
+      "once in order with in-bounds pieces; the real _compute_rechunk task layer has identity provenance and a closed key "
+      "grid; the Rechunk pushdown rewrites through slice / concatenate / transpose / expand_dims and "
+      "FromArray._accept_rechunk keep the requested chunks and identity provenance.",
+      "Trusted: z3, symx shims, recorders standing in for expression constructors (listed in evidence.stubs). Outside: "
+      "balance=True, 'auto'/byte specs (C16), p2p, the planner (C15), elemwise pushdown glue, more blocks than the bound.",
+      "DESIGN.md 6 C14")
+
+check("C15",
+      "Solver-decided, as the property is stated, for the real plan_rechunk (with find_merge_rechunk, find_split_rechunk, "
+      "divide_to_width, merge_to_number, _bound_degree, estimate_graph_size) under a dask.config stub whose threshold and "
+      "chunk-size are symbolic: every plan is a non-empty list of positive chunkings with the old per-axis sums ending in "
+      "the target, every step's largest block is within max(limit/itemsize, largest old, largest new), internal asserts "
+      "never fire. 1-D and 2-D with small block counts; chunk sizes bounded (products are nonlinear and log/pow concretise).",
+      "Trusted: z3 (QF_NIA within small bounds), symx shims, exact-rational float model. Bounded: sizes 1..4 (quick) / 1..6 "
+      "(thorough), threshold 1..4/1..8, limit 1..16/1..64, degree-limit enumerated. Outside: larger sizes/ranks, float rounding.",
+      "DESIGN.md 6 C15")
+
+check("C16",
+      "Solver-decided, as stated, for the real normalize_chunks/auto_chunks/blockdims_from_blockshape/round_to on spec forms "
+      "int, tuple of ints, tuple of tuples, dict, -1, None, 'auto' and byte limits (symbolic limit): one non-empty tuple per "
+      "axis, sizes >= 0 summing to the axis length, zero sizes only on zero-length axes, uniform specs give c..c,last with "
+      "0<last<=c, 'auto' stays within the byte limit (times the documented tolerance) unless the fixed axes alone exceed it; "
+      "invalid specs raise ValueError. Sizes unbounded with <=4 blocks per uniform axis; two auto axes with shape<=12.",
+      "Trusted: z3, symx shims, exact-rational float model. Outside: object dtypes, non-default chunk-size-tolerance, "
+      "sizes >= 2**53, more than 4 blocks per uniform axis.",
+      "DESIGN.md 6 C16")
+
 ALL = [f"C{i:02d}" for i in range(1, 30)]
 
 
@@ -63,7 +105,7 @@ def main():
                       kind_free_text="proxy-based symbolic executor for Python function objects over z3 (path enumeration by re-execution, solver-decided obligations, concrete replay)")],
         checks=[CHECKS[k] for k in sorted(CHECKS)],
         notes="All checks: ./check <ID> [--tier quick|thorough]; exit 0 pass, 1 VIOLATION, 2 inconclusive/harness error. "
-              "Fix commits in /repo: 15fbc37 (normalize_slice).",
+              "Fix commits in /repo: 15fbc37 (normalize_slice), bfce058 (_bound_degree budget), 82ae11e (normalize_chunks negatives).",
         not_applicable=na,
     )
     json.dump(m, open("MANIFEST.json", "w"), indent=1)
